@@ -30,6 +30,7 @@ import (
 	"sync"
 	"time"
 
+	"oss.terrastruct.com/d2/d2compiler"
 	"oss.terrastruct.com/d2/d2graph"
 	"oss.terrastruct.com/d2/d2lib"
 	"oss.terrastruct.com/d2/d2renderers/d2svg"
@@ -77,6 +78,13 @@ func c25Render(j c25Job) (res string) {
 		return "ERR:" + err.Error()
 	}
 	h := sha256.Sum256(svg)
+	if dir := os.Getenv("D2H_C25_DUMP"); dir != "" {
+		// debugging aid: keep one copy of every distinct SVG so that differing runs can be diffed
+		f := filepath.Join(dir, fmt.Sprintf("%x.svg", h[:16]))
+		if _, err := os.Stat(f); err != nil {
+			os.WriteFile(f, svg, 0o644)
+		}
+	}
 	return fmt.Sprintf("%x", h[:16])
 }
 
@@ -135,9 +143,27 @@ func c25N(hex string) string {
 
 var c25Diagrams = []struct{ class, text string }{
 	{"containers-labels", "direction: down\ncloud: {aws: {vpc: {a -> b: a long label between ranks; b -> c}; s3}; gcp: {vm -> db: another quite long label}}\ncloud.aws.vpc.c -> cloud.gcp.vm: cross container {style.animated: true}\ncloud.aws.s3 -> cloud.gcp.db\nuser -> cloud.aws.vpc.a: enters\nuser: {shape: person; style.multiple: true}\nnote: |md # Notes\n- one\n- two |\nnote -> cloud: about {style.stroke-dash: 3}"},
-	{"code-tables", "c: |go\npackage main\n\nimport \"fmt\"\n\n// comment\nfunc main() {\n\tx := 42 // answer\n\tfmt.Printf(\"%d <&> %s\\n\", x, \"str\")\n}\n|\np: |python\ndef f(a, b=2):\n    return [a*b for _ in range(3)]  # list\n|\nt: {shape: sql_table; id: int {constraint: primary_key}; name: varchar; org: int {constraint: foreign_key}}\nk: {shape: class; +name: string; -run(x int): error}\nc -> t -> k\np -> t.org: col\nx: {style.3d: true; style.fill: \"linear-gradient(#f69d3c, #3f87a6)\"}\ny: {shape: cylinder; style.fill-pattern: dots; style.shadow: true}\nx -> y: pat {style.font-color: red}"},
+	{"tables-classes-styles", "t: {shape: sql_table; id: int {constraint: primary_key}; name: varchar; org: int {constraint: foreign_key}}\nk: {shape: class; +name: string; -run(x int): error}\nt -> k\np -> t.org: col\nx: {style.3d: true; style.fill: \"linear-gradient(#f69d3c, #3f87a6)\"}\ny: {shape: cylinder; style.fill-pattern: dots; style.shadow: true}\nx -> y: pat {style.font-color: red}\nm: |md # Title\n**bold** and `code` and [link](https://example.com)\n|\nm -> x: {source-arrowhead: {shape: diamond; label: 1}; target-arrowhead: {shape: cf-many; label: n}}"},
 	{"sequence-near-grid", "title: Doc {near: top-center; shape: text; style.font-size: 30}\nseq: {shape: sequence_diagram; alice -> bob: hello; bob -> alice: hi back; alice.s -> bob.s: span; bob.\"note to self\"}\ngrid: {grid-rows: 2; a; b; c: {p -> q}; d}\nseq -> grid: then\ngrid.a -> grid.d\nlegend: {near: bottom-right; k1; k2; k1 -> k2}\ntip: {tooltip: some tip; link: https://example.com; icon: https://icons.terrastruct.com/essentials/004-picture.svg}\ngrid -> tip"},
-	{"self-loops-multi", "a -> a: self\na -> b\na -> b: again\nb -> c -> d -> a: cycle\nbox: {e -> e; e -> f; f -> g: lbl; g.shape: diamond}\nbox.g -> d\nd: {shape: hexagon; style.double-border: true}\nc: {shape: circle; width: 120}\n(a -> b)[0].style.stroke: blue\nc -> box.e: {source-arrowhead: {shape: diamond; label: 1}; target-arrowhead: {shape: cf-many; label: n}}"},
+	{"code-blocks", "c: |go\npackage main\n\nimport \"fmt\"\n\n// comment\nfunc main() {\n\tx := 42 // answer\n\tfmt.Printf(\"%d <&> %s\\n\", x, \"str\")\n}\n|\np: |python\ndef f(a, b=2):\n    return [a*b for _ in range(3)]  # list\n|\nc -> p: calls"},
+	{"self-loops-multi", "a -> a: self\na -> b\na -> b: again\nb -> c -> d -> a: cycle\nbox: {e -> e; e -> f; f -> g: lbl; g.shape: diamond}\nbox.g -> d\nd: {style.double-border: true}\nh: {shape: hexagon}\nh -> d\nc: {shape: circle; width: 120}\n(a -> b)[0].style.stroke: blue\nc -> box.e: {source-arrowhead: {shape: diamond; label: 1}; target-arrowhead: {shape: cf-many; label: n}}"},
+}
+
+const c25KFChroma = "C25-chroma-match-timeout"
+
+// signature of the known finding: the diagram has a code block (shape: code), i.e. text that d2svg
+// tokenises with chroma for syntax highlighting
+func c25HasCode(text string) bool {
+	g, _, err := d2compiler.Compile("", strings.NewReader(text), nil)
+	if err != nil {
+		return false
+	}
+	for _, o := range g.Objects {
+		if o.Shape.Value == d2target.ShapeCode {
+			return true
+		}
+	}
+	return false
 }
 
 func c25Jobs(r *Rng, tier string, n int) []c25Job {
@@ -318,6 +344,9 @@ func c25Gen(r *Rng, tier string, n int) []Case {
 		}
 		if strings.HasPrefix(ref[i], "ERR:") {
 			cs.Impl.(map[string]any)["error"] = ref[i]
+		}
+		if c25HasCode(j.Text) {
+			cs.KF = append(cs.KF, c25KFChroma)
 		}
 		if i == 0 {
 			cs.ImplFail = append(cs.ImplFail, fails...)
